@@ -902,6 +902,7 @@ def split_generic_args(a):
     if a.startswith("[") and a.endswith("]"):
         a = a[1:-1]
     out, depth, cur = [], 0, ""
+    a = a.replace("->", "\u2192")
     for ch in a:
         if ch in "<([{":
             depth += 1
@@ -914,7 +915,7 @@ def split_generic_args(a):
             cur += ch
     if cur.strip():
         out.append(cur.strip())
-    return out
+    return [x.replace("\u2192", "->") for x in out]
 
 
 def operand_locals(op):
